@@ -150,6 +150,8 @@ def catalogue():
     add('getitem[:,1]', [U((2, 2))], lambda algopy, x: x[:, 1], group='shape', npfn=lambda a: a[:, 1])
     add('reshape', [U((2, 3))], lambda algopy, x: algopy.reshape(x, (3, 2)), group='shape', npfn=lambda a: a.reshape(3, 2))
     add('transpose', [U((2, 3))], lambda algopy, x: x.T, group='shape', npfn=lambda a: a.T)
+    add('transpose(3-D)', [U((2, 3, 2))], lambda algopy, x: algopy.transpose(x), group='shape', npfn=lambda a: np.transpose(a))
+    add('trace(tall)', [U((4, 2))], lambda algopy, x: algopy.trace(x), group='shape', npfn=np.trace)
     add('sum', [U((2, 3))], lambda algopy, x: algopy.sum(x), group='shape', npfn=np.sum)
     add('sum(axis=0)', [U((2, 3))], lambda algopy, x: algopy.sum(x, axis=0), group='shape', npfn=lambda a: np.sum(a, axis=0))
     add('sum(axis=-1)', [U((2, 3))], lambda algopy, x: algopy.sum(x, axis=-1), group='shape', npfn=lambda a: np.sum(a, axis=-1))
